@@ -37,6 +37,10 @@ TagTouchesLine(t, d, k) ==
 WrapperLinesClean(t, d) ==
   \A e \in d.elems : (e.uw /\ e.st = "ready" /\ e.m >= 2) => ~TagTouchesLine(t, d, e.lo + 1) /\ ~TagTouchesLine(t, d, e.lc - 1)
 
+\* the same for every unwrap-block element whatever its status (C19: a later run may make it ready)
+WrapperLinesNeverTagged(t, d) ==
+  \A e \in d.elems : (e.uw /\ e.m >= 2) => ~TagTouchesLine(t, d, e.lo + 1) /\ ~TagTouchesLine(t, d, e.lc - 1)
+
 (***************************************************************************)
 (* Line integrity (C11 first sentence, C13 first sentence): the non-blank  *)
 (* lines of the result are the surviving non-blank lines of the source, in *)
